@@ -10,6 +10,11 @@ for d in sorted(os.listdir(os.path.join(ROOT, "seeded"))):
         continue
     meta = json.load(open(os.path.join(p, "meta.json")))
     rp = os.path.join(p, "result.json")
+    own_only = False
+    if not (os.path.exists(rp) and os.path.getsize(rp) > 0):
+        # no full matrix for this seed: fall back to the run against its own property's check
+        rp = os.path.join(p, "target.json")
+        own_only = True
     res = json.load(open(rp)) if os.path.exists(rp) and os.path.getsize(rp) > 0 else {}
     notes = open(os.path.join(p, "notes.md")).read() if os.path.exists(os.path.join(p, "notes.md")) else ""
     # first sentence-ish of the notes as the description
@@ -25,7 +30,7 @@ for d in sorted(os.listdir(os.path.join(ROOT, "seeded"))):
     if own in res.get("checks", {}) and res["checks"][own]["signatures"]:
         sig = res["checks"][own]["signatures"][0].split("/", 1)[1][:60]
     ok = res.get("repo_tests_with_change") == "BASELINE-OK" and res.get("demo_with_change") == "fails" and res.get("demo_on_clean_tree") == "pass"
-    rows.append("| %s | %s | %s | %s | %s | %s |" % (d, desc.replace("|", "/"), "yes" if ok else "NO", "**yes**" if own in caught else "no", " ".join(c for c in caught if c != own) or "—", sig.replace("|", "/")))
+    rows.append("| %s | %s | %s | %s | %s | %s |" % (d, desc.replace("|", "/"), "yes" if ok else "NO", "**yes**" if own in caught else "no", ("(own check only)" if own_only else (" ".join(c for c in caught if c != own) or "—")), sig.replace("|", "/")))
 print("| seed | what the change does (from the sub-agent's notes) | confirmed (suite unchanged, demo fails with / passes without) | caught by its own property's quick check | also caught by | first signature |")
 print("|---|---|---|---|---|---|")
 print("\n".join(rows))
